@@ -37,6 +37,23 @@ def run(chk):
     ords = {}
     nlog = 0
     used_keys = set()
+    _ret_memo = {}
+
+    def returns_error(file, fn_name):
+        k_ = (file, fn_name)
+        if k_ not in _ret_memo:
+            unit_ = file.replace("/repo/", "")
+            ret = None
+            if unit_.endswith(".cpp"):
+                try:
+                    ff = chk.facts(unit_, funcs=re.escape(fn_name.split("(")[0]) + "$")
+                    for fo in ff["functions"]:
+                        if fo.get("name") == fn_name.split("(")[0] or fo.get("name", "").endswith(fn_name.split("::")[-1].split("(")[0]):
+                            ret = fo.get("ret")
+                except Exception:
+                    ret = None
+            _ret_memo[k_] = (ret is None) or ("Error" in ret)
+        return _ret_memo[k_]
     for (file, line, callee, fn), d in sorted(seen.items()):
         key = "%s -> %s" % (short(re.sub(r"<(asmjit::)?(a64|x86)::RACFGBuilder>", "", fn)), short(callee))
         o = ords.get(key, 0)
@@ -48,6 +65,9 @@ def run(chk):
         elif key in accepted:
             used_keys.add(key)
             chk.ob(R, "listed|%s#%d" % (key, o), True, loc=loc, detail=accepted[key])
+        elif callee.endswith("::report_error") and not returns_error(file, fn):
+            # a function that cannot return an Error (Label / pointer / void API, or a helper of one): report_error() IS its error channel
+            chk.ob(R, "report-channel|%s#%d" % (key, o), True, loc=loc, detail="the enclosing function does not return Error: the handler is the only channel")
         else:
             chk.ob(R, "discard|%s#%d" % (key, o), False, loc=loc,
                    detail="Error result of %s is discarded in %s (%s) and is neither a log sink nor listed in rules/err_discard.json" % (short(callee), short(fn), d["text"][:80]),
